@@ -1,5 +1,6 @@
 \* round trip: up to 3 writes from 11 items into 9 capacities, read back item by item, one free read
 CONSTANTS Items <- MC_Items_q
+          FirstItems <- MC_Items_q
           Caps = {0, 1, 2, 3, 4, 5, 7, 9, 24}
           MaxW = 3
           ReadOps <- MC_ReadOps
